@@ -16,6 +16,7 @@ import Acme.Driver.Graph
 import Acme.Driver.Dbc
 import Acme.Driver.Md
 import Acme.Driver.Conv
+import Acme.Driver.SaveSel
 
 open Acme.Driver
 
@@ -39,6 +40,7 @@ def stepLine (s : DState) (line : String) : DState × String :=
   | "dbc" :: rest => (s, DbcD.handle rest)
   | "md" :: rest => (s, MdD.handle rest)
   | "cv" :: rest => (s, ConvD.handle rest)
+  | "ss" :: rest => (s, SaveSelD.handle rest)
   | _ => (s, "bad-op")
 
 partial def loop (hin : IO.FS.Stream) (hout : IO.FS.Stream) (s : DState) : IO Unit := do
